@@ -1,7 +1,7 @@
-CONSTANTS N = 2  W = 1
-          T = 3  MaxOut = 2  Base = 1  Fee = 1  KMax = 3
+CONSTANTS N = 3  W = 1
+          T = 2  MaxOut = 2  Base = 1  Fee = 1  KMax = 3
           SendAmts = {2}  OwnModes = {1}  MaxIns = 2  MaxBlockTx = 2
-          MaxDeliver = 99  MaxMem = 99  MaxSend = 99  MaxRewind = 99
+          MaxDeliver = 99  MaxMem = 1  MaxSend = 1  MaxRewind = 1
           RewindInclusive = TRUE  KeepOnConfirm = TRUE  KeepOnMempool = TRUE
           UnconfInZero = TRUE  ZeroSentinel = FALSE
 INIT XInit
